@@ -26,7 +26,7 @@ the final status of every session must agree -> ctx.divergence.
 PostgreSQL / MySQL / Oracle: only the generated text (FOR UPDATE [NOWAIT | SKIP LOCKED]) is compared with the model's
 printer through the offline provider stubs; server behaviour cannot be executed here.
 """
-import itertools, json, os, sqlite3, threading, time, traceback, multiprocessing
+import itertools, json, os, sqlite3, sys, threading, time, traceback, multiprocessing
 
 from tracing import Tracer
 import ponyutil
@@ -113,6 +113,24 @@ class Sched(object):
                 ok = self.cv.wait_for(lambda: self.turn is None, 1.0)
             if not ok: ok = self.cv.wait_for(lambda: self.turn is None, 1.0)
             return self.event if ok else ('hung', None)
+
+
+class Progress(object):
+    """is the running worker merely slow (loaded machine, slow disk) rather than blocked?  True while it is inside a DB-API
+    call (SQLite's own waits end after the busy timeout) or while its Python stack keeps changing between two looks.
+    Every Python lock the provider uses is wrapped (never blocks), so a thread whose stack stands still outside SQLite is
+    really waiting for something."""
+    def __init__(self, tr, thread, name, n):
+        self.tr = tr; self.thread = thread; self.name = name; self.n = n; self.last = None
+    def __call__(self):
+        if any(ev['outcome'] is None and ev['thread'] == self.name for ev in self.tr.events[-3 * self.n:]): return True
+        f = sys._current_frames().get(self.thread.ident)
+        sig = []
+        while f is not None and len(sig) < 12:
+            sig.append((id(f.f_code), f.f_lasti)); f = f.f_back
+        moved = sig != self.last
+        self.last = sig
+        return moved
 
 
 class SchedLock(object):
@@ -258,7 +276,7 @@ def run_case(workdir, case):
             i = cand[0]
         waiting[i] = None
         wname = 'c35-w%d' % i
-        kind, payload = sched.resume(i, lambda: any(ev['outcome'] is None and ev['thread'] == wname for ev in tr.events[-3 * n:]))
+        kind, payload = sched.resume(i, Progress(tr, threads[i], wname, n))
         entry = {'t': i, 'kind': kind, 'payload': payload, 'db': None, 'acq': list(sched.acquired)}
         del sched.acquired[:]
         log.append(entry)
